@@ -302,8 +302,10 @@ def c15(ctx):
     # extreme markers and the count follow the specified step
     # extreme markers capture min/max, the count is exact, `dm` (hence p()) has no writer, and the
     # acceptance test keeps interior heights between their neighbours: all follow from the specified step
-    Q.r_p2_step(ctx, db, e, roles, rule="R-P2", label=":bookkeeping")
+    Q.r_p2_step(ctx, db, e, roles, rule="R-P2", label=":bookkeeping", sorted_rule=True)
     Q.r_p2_init(ctx, db, e, roles)
+    Q.r_middle_marker(ctx, db, e, roles)
+    Q.r_small_quantile(ctx, db, e, roles, [0.0, 0.5, 1.0])
     R.r_sentinel(ctx, db, e, "Quantile", ctor_args=quantile_ctor)
 
 
